@@ -193,6 +193,8 @@ def history(sx, kinds, L, details, first=None):
                 p["live"] = False
                 res = p["out"].results
                 sx.check(len(res) == 1, "completed-exactly-once", info=info)
+                # an interim (progressive) result is not the reply: whether or not the call asked for progress, only the final RESULT or an ERROR completes it
+                sx.check(rt != "result-progress", "progressive-result-never-completes-a-call", info=info)
                 if rt == "error":
                     ok = res[0][0] == "err" and isinstance(res[0][1], ApplicationError) and res[0][1].error == m.error \
                         and tuple(res[0][1].args) == tuple(args or ()) and dict(res[0][1].kwargs) == dict(kwargs or {})
